@@ -45,6 +45,8 @@ type Profile struct {
 	SingleTxP    float64  // probability that a delivery gets a block of its own
 	EmptyFeeP    float64  // probability of a fee action with an empty list
 	InitLimitP   float64  // probability that the run starts by raising the passthrough limit
+	ModeBEvery   int      // k>0: every k-th run uses the interposed (mode B) node
+	InjectP      float64  // mode-B runs: probability that a lone delivery gets an injected downstream failure
 	Replays      int      // C19: extra replays of each trace
 	// evidence / packaging
 	Level              string
@@ -750,7 +752,29 @@ func (g *genState) genSend(s *Sim) Op {
 		A = big.NewInt(1)
 	}
 	op.Amt = A.String()
-	p.HasFee, p.Fees = g.genFees(s, A)
+	feeBase := A
+	if s.ModeB != nil && (op.Denom == DenomUSDC || op.Denom == DenomOther) && r.Intn(3) == 0 {
+		// the denomination-changing test action, before or after the fee action
+		rates := [][2]int64{{3, 2}, {2, 3}, {1, 7}, {7, 1}, {999, 1000}, {1, 1}, {10001, 10000}}
+		rt := rates[r.Intn(len(rates))]
+		other := map[string]string{DenomUSDC: DenomOther, DenomOther: DenomUSDC}[op.Denom]
+		p.Swap = &MSwap{Denom: other, Num: rt[0], Den: rt[1]}
+		p.SwapFirst = r.Intn(2) == 0
+		q := &MPayload{}
+		g.genRoute(s, q, other)
+		q.Swap, q.SwapFirst = p.Swap, p.SwapFirst
+		*p = *q
+		if p.SwapFirst {
+			feeBase = new(big.Int).Quo(new(big.Int).Mul(A, big.NewInt(rt[0])), big.NewInt(rt[1]))
+			if feeBase.Sign() <= 0 {
+				feeBase = big.NewInt(1)
+			}
+		}
+	}
+	p.HasFee, p.Fees = g.genFees(s, feeBase)
+	if p.Swap != nil && !p.HasFee {
+		p.SwapFirst = true
+	}
 	g.passthrough(s, p)
 	op.Recv = s.Env.Orbiter.String()
 	class := []string{"canon", "refuse", "free", "plain", "nearmiss", "exotic", "multierr"}
@@ -763,7 +787,7 @@ func (g *genState) genSend(s *Sim) Op {
 	case "canon":
 		op.Class = "canon"
 		op.Memo = p.Canonical()
-		if via, ok := viaConstructors(s, p); ok && via != op.Memo {
+		if via, ok := viaConstructors(s, p); ok && p.Swap == nil && via != op.Memo {
 			panic(harnessErr("model serialisation differs from the module's constructors+MarshalJSON:\n model: %s\n module: %s", op.Memo, via))
 		}
 		if r.Intn(12) == 0 {
@@ -1200,6 +1224,9 @@ func (g *genState) Next(s *Sim) Op {
 			}
 			if len(s.Mempool) > 1 && r.Intn(3) == 0 {
 				op.Perm = r.U64() | 1
+			}
+			if s.ModeB != nil && len(s.Mempool) == 1 && r.Bool(g.prof.InjectP) {
+				op.Inject = fmt.Sprintf("%d:%d", r.Intn(14), 1+r.Intn(2))
 			}
 			return op
 		case "restart":
